@@ -175,6 +175,13 @@ function genModule (rng, opts = {}) {
     sites.top.hi = sites.top.lo
     add('Object.assign(exports, { siteThrow })')
   }
+  if (opts.bigFile) {
+    // a generated data table in front makes the module larger than half a megabyte; every site moves down by its line count
+    const rows = Array.from({ length: 9000 }, (_, k) => `  ['row-${k}', ${k}, 'padding padding padding padding padding'],`)
+    const shift = rows.length + 2
+    L.unshift('const TABLE = [', ...rows, ']')
+    for (const st of Object.values(sites)) { st.lo += shift; st.hi += shift }
+  }
   let code = L.join('\n') + '\n'
   let orig = null
   if (opts.chain) {
@@ -360,7 +367,7 @@ function findMarker (content, marker) {
 module.exports = {
   id: 'C11',
   level: 'exploration',
-  rule: 'the repository\'s real main.js / js/source-map / js/stack-trace are loaded with the native module replaced by a shim that calls rwharness; generated CommonJS modules with throw sites on known lines (throw statement, TypeError from a null receiver inside an injected sequence on a two-line statement, a hook that throws on a marker, an error inside an eval-created frame, a nested closure, top-level code, a call site beyond column 65536 of its line, an error whose multi-line message contains a line that reads like a frame, errors raised by the callee of a call chain broken over several lines: member chain, chain inside a `+`, `X.prototype.m` + `.call(` on separate lines, optional chain), placed directly under the root folder and under plain, nested, non-ASCII and hostile directory names, with ASCII and non-ASCII base names (and non-ASCII chained source names) (blanks and brackets, `$&` / `$\' ` / `$$`, regex metacharacters, node_modules/@scope) with various extensions, are rewritten through the caching Rewriter, compiled under the original file name with Module.prototype._compile and run; each error\'s stack is read through both code paths of getPrepareStackTrace (wrapping a user handler; formatting V8\'s string) and the frame of the rewritten file must carry the original path and a line inside the statement\'s span (with a chained inline map: orig.ts - named relatively or by an absolute path - and line+100); differential line oracle: the ORIGINAL module is also run under the same file name and every frame of the file must be reported, after translation, on exactly the line V8 itself reports for that frame in the original run; frames of other files unchanged; nothing throws. Real-world files: corpus files rewritten through the caching Rewriter, then 60 random positions of each rewritten text looked up through the package and compared with an independent decoder of the embedded map. On-disk lookups: getOriginalPathAndLineFromSourceMap over temporary files with inline / external / missing / invalid / absent maps, compared with an independent decoder where the lookup conventions agree (a token on the same line at or before the column). Histories: random sequences of rewrites (modified v1/v2, not modified, syntax error) over 5 file names, after each of which a lookup for every file must use the map of its most recent rewrite (positions unchanged when that rewrite was not modified or failed, i.e. when the caller serves the text as it is). distinct_nontrivial = distinct (module, site, path) stacks plus history lookups decided.',
+  rule: 'the repository\'s real main.js / js/source-map / js/stack-trace are loaded with the native module replaced by a shim that calls rwharness; generated CommonJS modules with throw sites on known lines (throw statement, TypeError from a null receiver inside an injected sequence on a two-line statement, a hook that throws on a marker, an error inside an eval-created frame, a nested closure, top-level code, a call site beyond column 65536 of its line, modules larger than half a megabyte, an error whose multi-line message contains a line that reads like a frame, errors raised by the callee of a call chain broken over several lines: member chain, chain inside a `+`, `X.prototype.m` + `.call(` on separate lines, optional chain), placed directly under the root folder and under plain, nested, non-ASCII and hostile directory names, with ASCII and non-ASCII base names (and non-ASCII chained source names) (blanks and brackets, `$&` / `$\' ` / `$$`, regex metacharacters, node_modules/@scope) with various extensions, are rewritten through the caching Rewriter, compiled under the original file name with Module.prototype._compile and run; each error\'s stack is read through both code paths of getPrepareStackTrace (wrapping a user handler; formatting V8\'s string) and the frame of the rewritten file must carry the original path and a line inside the statement\'s span (with a chained inline map: orig.ts - named relatively or by an absolute path - and line+100); differential line oracle: the ORIGINAL module is also run under the same file name and every frame of the file must be reported, after translation, on exactly the line V8 itself reports for that frame in the original run; frames of other files unchanged; nothing throws. Real-world files: corpus files rewritten through the caching Rewriter, then 60 random positions of each rewritten text looked up through the package and compared with an independent decoder of the embedded map. On-disk lookups: getOriginalPathAndLineFromSourceMap over temporary files with inline / external / missing / invalid / absent maps, compared with an independent decoder where the lookup conventions agree (a token on the same line at or before the column). Histories: random sequences of rewrites (modified v1/v2, not modified, syntax error) over 5 file names, after each of which a lookup for every file must use the map of its most recent rewrite (positions unchanged when that rewrite was not modified or failed, i.e. when the caller serves the text as it is). distinct_nontrivial = distinct (module, site, path) stacks plus history lookups decided.',
   assumptions: ['eval frames are only checked through the string-formatting path (the wrapping path has no file name for them)', 'the differential line oracle skips the hook-raised and eval sites (no counterpart frame in the original run)', 'lru-cache is a 12-line stand-in with get/set'],
   plan (ctx) {
     const shards = []
@@ -386,7 +393,7 @@ module.exports = {
       for (let i = 0; i < spec.count; i++) {
         const chain = i % 3 === 2
         const markerLines = i % 8 >= 5
-        const mod = genModule(rng.fork(i), { chain, multilineMessage: i % 4 === 1, markerLines, absoluteSource: chain && i === 5, nonAsciiSource: chain && i === 2 && spec.stream % 2 === 1, longLine: i === 7 || (chain && i === 2 && spec.stream % 4 === 0) })
+        const mod = genModule(rng.fork(i), { chain, multilineMessage: i % 4 === 1, markerLines, absoluteSource: chain && i === 5, nonAsciiSource: chain && i === 2 && spec.stream % 2 === 1, longLine: i === 7 || (chain && i === 2 && spec.stream % 4 === 0), bigFile: i === 4 && spec.stream % 3 === 0 })
         const dirName = rng.pick(DIRS)
         const file = `${dirName === 'ROOT' ? '' : '/srv/c11/' + dirName}/${rng.pick(['mod', 'mod', 'módulo-ñ', '模块', 'm o d'])}_${spec.stream}_${i}${rng.pick(['.js', '.js', '.cjs', '', '.min.js'])}` // ROOT: a file directly under the file system root
         const pkg = sharedPkg
